@@ -17,7 +17,7 @@ cleanup() {
   fi
 }
 trap cleanup EXIT
-if ! git -C "$S/repo" apply "$patch"; then echo "PATCH DOES NOT APPLY"; exit 2; fi
+if ! git -C "$S/repo" apply "$patch" 2>/dev/null && ! git -C "$S/repo" apply -3 "$patch"; then echo "PATCH DOES NOT APPLY"; exit 2; fi
 mkdir -p "$S/verif"
 rsync -a --exclude target --exclude work --exclude replays --exclude evidence --exclude .git /verif/ "$S/verif/"
 sed -i "s#\"/repo/#\"$S/repo/#g" "$S/verif/harness/Cargo.toml"
